@@ -141,6 +141,17 @@ def run(ctx):
     except Skip:
         pass
 
+    # ---- what the action handler sees is the collected batch itself
+    try:
+        hn = ctx.anchor_fn("R01.3", "watchexec::action::handler::Handler::new")
+        lit = [n for n in thir.find(thir.root(hn), "adt") if n.get("adt", "").endswith("handler::Handler")]
+        fl = {k: pathx.desc(v) for k, v in lit[0]["f"]} if len(lit) == 1 else {}
+        ctx.require(fl.get("events") == "events" and fl.get("extant") == "jobs" and fl.get("quit") == "None", "R01.3", "handler-holds-batch",
+                    "Handler::new stores the given batch and job map unchanged and starts without a quit request", hn.loc(hn.line), detail=str(fl),
+                    fail="Handler::new does not hand the batch through unchanged (%s): events taken from the queue are missing from (or altered in) what the action handler sees" % fl.get("events"))
+    except Skip:
+        pass
+
     # ---- R01.9 shape of filesystem events
     try:
         pe = ctx.anchor_fn("R01.9", "watchexec::sources::fs::process_event")
